@@ -430,14 +430,32 @@ def _guard_eval(node: Any, env: dict[str, Any]) -> Any:
         v = _guard_eval(node.operand, env)
         return {ast.USub: O.neg, ast.UAdd: O.pos, ast.Invert: O.invert, ast.Not: O.not_}[type(node.op)](v)
     if isinstance(node, ast.BoolOp):
-        vals = [_guard_eval(x, env) for x in node.values]   # evaluates both sides (stricter than needed)
+        vals = []
+        pend2: BaseException | None = None
+        for x in node.values:   # evaluates all sides (stricter than needed)
+            try:
+                vals.append(_guard_eval(x, env))
+            except _TooBig:
+                raise
+            except BaseException as e:
+                pend2 = pend2 or e
+        if pend2 is not None:
+            raise pend2
         r = vals[0]
         for v in vals[1:]:
             r = (r and v) if isinstance(node.op, ast.And) else (r or v)
         return r
     if isinstance(node, ast.Compare):
-        l = _guard_eval(node.left, env)
+        pend3: BaseException | None = None
+        try:
+            l = _guard_eval(node.left, env)
+        except _TooBig:
+            raise
+        except BaseException as e:
+            pend3 = e
         r = _guard_eval(node.comparators[0], env)
+        if pend3 is not None:
+            raise pend3
         if len(node.ops) != 1:
             raise _TooBig()
         op = node.ops[0]
@@ -446,8 +464,17 @@ def _guard_eval(node: Any, env: dict[str, Any]) -> Any:
             raise _TooBig()
         return fn(l, r)
     if isinstance(node, ast.BinOp):
-        l = _guard_eval(node.left, env)
+        # both operands are always evaluated (a static folder looks at the right operand even if the left one raises)
+        pend: BaseException | None = None
+        try:
+            l = _guard_eval(node.left, env)
+        except _TooBig:
+            raise
+        except BaseException as e:
+            pend = e
         r = _guard_eval(node.right, env)
+        if pend is not None:
+            raise pend
         op = type(node.op)
         li, ri = isinstance(l, int), isinstance(r, int)
         if op is ast.Pow and li and ri and r >= 0:
